@@ -4,6 +4,7 @@ package main
 
 import (
 	"bufio"
+	"io"
 	"encoding/json"
 	"flag"
 	"fmt"
@@ -97,3 +98,5 @@ func main() {
 		os.WriteFile(*statp, b, 0o644)
 	}
 }
+
+func discardWriter() *bufio.Writer { return bufio.NewWriter(io.Discard) }
